@@ -35,6 +35,7 @@ def run(ctx, col, tier):
     col.not_decided += ["the partition property as a statement over all trees (follows from the "
                         "clauses above for well-formed trees, not proved here)"]
 
+    col.guard(anchored, ctx, col)
     col.guard(get_branches, ctx, col)
     col.guard(thresholds, ctx, col)
     col.guard(get_paths, ctx, col)
@@ -74,7 +75,7 @@ def get_branches(ctx, col):
     arm, tab = pt
     col.check(tab == PASS, "R-THRESH", cb.qualname, cb.loc(arm), "branch accumulation: pass-through <=> exactly one child",
               f"{norm_src(arm.test)} -> {tab}", f"`{norm_src(arm.test)}` is true for child counts "
-              f"{[k for k, v in enumerate(tab) if v]}, expected [1]", stmt="passthrough")
+              f"{[k for k, v in enumerate(tab) if v]}, expected [1]", stmt="passthrough", definite=True)
     # in the pass-through arm the open chain is extended and returned unclosed
     src_arm = [norm_src(s) for s in arm.body]
     opens = [r for r in ast.walk(arm) if isinstance(r, ast.Return)]
@@ -130,7 +131,7 @@ def get_branches(ctx, col):
                   "open chain of the outermost call is closed", norm_src(st),
                   f"`{norm_src(st)}` discards the chain that is still open at the root: for a root with "
                   f"exactly one child the stem (and for an unbranched chain the only branch) is lost",
-                  stmt="flush", facts={"pending_bound_to": pending_name})
+                  stmt="flush", facts={"pending_bound_to": pending_name}, definite=(pending_name == "_"))
         if used:
             # the chain is closed iff it holds at least one edge (two or more node ids)
             guards = [n for n in own_nodes(d) if isinstance(n, ast.If) and n.lineno > st.lineno
@@ -142,7 +143,7 @@ def get_branches(ctx, col):
                           "the open chain is closed iff it has at least one edge (>= 2 node ids)",
                           f"{norm_src(guards[0].test)} -> {tab}",
                           f"`{norm_src(guards[0].test)}` closes the chain for lengths {[k for k, v in enumerate(tab or []) if v]}; a stem of "
-                          f"a single edge (2 ids) must be closed, a lone root id (1) must not", stmt="flush-threshold")
+                          f"a single edge (2 ids) must be closed, a lone root id (1) must not", stmt="flush-threshold", definite=True)
             # the consumer must build a branch from it
             mk = [x for x in own_nodes(d) if isinstance(x, ast.Call) and (dotted(x.func) or "").endswith("Branch")
                   and pending_name in names_in(x) and x.lineno > st.lineno]
@@ -161,7 +162,7 @@ def thresholds(ctx, col):
     col.judge(t is not None, t == FURC, R, d.qualname, cb.loc(ifs[0]) if ifs else cb.loc(),
               "Tree.get_furcations: furcation <=> two or more children", f"{norm_src(ifs[0].test) if ifs else ''} -> {t}",
               f"`{norm_src(ifs[0].test) if ifs else ''}` holds for child counts {[k for k, v in enumerate(t or []) if v]}, expected 2,3,4,...",
-              stmt="get_furcations")
+              stmt="get_furcations", definite=True)
     # Node.is_furcation
     d = repo.get_def("swcgeom.core.node.Node.is_furcation")
     rets = [n for n in own_nodes(d) if isinstance(n, ast.Return)]
@@ -171,7 +172,7 @@ def thresholds(ctx, col):
               "Node.is_furcation: furcation <=> two or more children (nodes whose parent id is this id)",
               f"{norm_src(rets[0].value) if rets else ''} -> {t}",
               f"`{norm_src(rets[0].value) if rets else ''}` -> true for counts {[k for k, v in enumerate(t or []) if v]}",
-              stmt="is_furcation")
+              stmt="is_furcation", definite=True)
     # tips
     d = repo.get_def(f"{TREE}.get_tips")
     sd = [n for n in own_nodes(d) if isinstance(n, ast.Call) and (dotted(n.func) or "").endswith("setdiff1d")]
@@ -190,12 +191,12 @@ def thresholds(ctx, col):
         t0 = tables.count_table(repo, d.module, ifs[0].test)
         col.judge(t0 is not None, t0 == TIP, R, d.qualname, d.loc(ifs[0]), "CutShortTipBranch: tip <=> no children",
                   f"{norm_src(ifs[0].test)} -> {t0}", f"tip test true for counts {[k for k, v in enumerate(t0 or []) if v]}",
-                  stmt="cut-tip")
+                  stmt="cut-tip", definite=True)
         first = ifs[1].test.values[0] if isinstance(ifs[1].test, ast.BoolOp) else ifs[1].test
         t1 = tables.count_table(repo, d.module, first)
         col.judge(t1 is not None, t1 == PASS, R, d.qualname, d.loc(ifs[1]), "CutShortTipBranch: elongation <=> exactly one child",
                   f"{norm_src(first)} -> {t1}", f"elongation test true for counts {[k for k, v in enumerate(t1 or []) if v]}",
-                  stmt="cut-elong")
+                  stmt="cut-elong", definite=True)
     # Node.branch walks to furcation/root upwards and furcation/tip downwards
     d = repo.get_def(f"{TREE}.Node.branch")
     wh = [n for n in own_nodes(d) if isinstance(n, ast.While)]
@@ -261,3 +262,58 @@ def branch_tree(ctx, col):
             "branch_tree.branches.setdefault(idx, [])" in body and "branch_tree.branches[idx].append(br.detach())" in body
     col.check(ok, R, d.qualname, d.loc(loops[0]) if loops else d.loc(), "each original branch (detached copy) is filed under the new id of its start node",
               "", "branches are not filed as branches[new id of br[0]].append(br.detach())", stmt="file")
+
+
+def anchored(ctx, col):
+    """Statements that carry the clauses, matched three-way under one renaming per function."""
+    repo = ctx.repo
+    d = repo.get_def(f"{TREE}.get_branches")
+    col.text_group("R-BRANCH", d.qualname, d, [
+        ("a pass-through node extends the open chain with its own id ...", ["child.append(node.id)"], "extend"),
+        ("... and passes it up unclosed", ["return branches, child"], "pass-up"),
+        ("a closing node closes every child chain: the chain plus this node, reversed to start here, as a branch view of this tree",
+         ["sub_branches.append(Tree.Branch(self, np.array(child, dtype=_any)))"], "close"),
+        ("... reversed", ["child.reverse()"], "reverse"),
+        ("a closing node opens a new chain at itself", ["return branches, [node.id]"], "open"),
+        ("the stem still open at the root is closed into a branch of this tree", ["branches.append(Tree.Branch(self, np.array(stem, dtype=_any)))"], "flush-branch"),
+    ], fixed=("Tree",))
+    g = repo.get_def(f"{TREE}.get_paths")
+    col.text_group("R-PATH", g.qualname, g, [
+        ("a node's path is a copy of its parent's path (the root starts empty)", ["path = [] if pre_path is None else pre_path.copy()"], "copy"),
+        ("... plus its own id", ["path.append(n.id)"], "append"),
+        ("the path is recorded under the node's id", ["path_dic[n.id] = path"], "record"),
+        ("tips return exactly their own path", ["return [path_dic[n.id]]"], "tip-path"),
+        ("inner nodes return the concatenation of their children's path lists", ["return list(itertools.chain(*children))", "return list(itertools.chain.from_iterable(children))"], "inner"),
+    ])
+    b = repo.get_def("swcgeom.core.branch_tree.BranchTree.from_tree")
+    col.text_group("R-BTREE", b.qualname, b, [
+        ("built from the tree's branches", ["branches = tree.get_branches()"], "branches"),
+        ("kept nodes: the root and every branch's end node", ["sub_id = np.array([0] + [br[-1].id for br in branches], dtype=_any)"], "sub-id"),
+        ("each end node's parent is its branch's start node; the root has none", ["sub_pid = np.array([-1] + [br[0].id for br in branches], dtype=_any)"], "sub-pid"),
+        ("each original branch is filed under the new id of its start node", ["idx = np.nonzero(id_map == br[0].id)[0][0].item()"], "file-key"),
+        ("... as a detached copy", ["branch_tree.branches[idx].append(br.detach())", "branch_tree.branches.setdefault(idx, []).append(br.detach())"], "file"),
+    ], fixed=("tree", "cls"))
+    n = repo.get_def("swcgeom.core.node.Node.is_tip")
+    col.text_group("R-THRESH", n.qualname, n, [
+        ("tip <=> this id is nobody's parent (over ALL rows: children need not be stored after their parent)",
+         ["return self.id not in self.attach.pid()", "return not np.any(self.attach.pid() == self.id)", "return np.count_nonzero(self.attach.pid() == self.id) == 0"], "is_tip")])
+    # a sliced parent column looks only at part of the rows
+    for r in own_nodes(n):
+        if isinstance(r, ast.Return):
+            for x in ast.walk(r):
+                if isinstance(x, ast.Subscript) and isinstance(x.slice, ast.Slice) and "pid" in norm_src(x.value):
+                    col.bad("R-THRESH", n.qualname, n.loc(r), "tip <=> this id is nobody's parent (over ALL rows)",
+                            f"`{norm_src(x)}` searches only part of the parent column: a child stored before its parent is not seen and the "
+                            f"parent is reported as a tip", stmt="is_tip", definite=True)
+    nb = repo.get_def(f"{TREE}.Node.branch")
+    col.text_group("R-THRESH", nb.qualname, nb, [
+        ("upwards to the nearest furcation or the root", ["while not ns[-1].is_furcation() and (p := ns[-1].parent()) is not None: ns.append(p)"], "up"),
+        ("downwards to the nearest furcation or tip (the root is not an end by itself)", ["while not (ns[-1].is_furcation() or ns[-1].is_tip()): ns.append(ns[-1].children()[0])"], "down"),
+    ])
+    for w in [x for x in own_nodes(nb) if isinstance(x, ast.While)]:
+        for c in ast.walk(w.test):
+            if isinstance(c, ast.Call) and isinstance(c.func, ast.Attribute) and c.func.attr in ("is_root", "is_soma", "is_critical") \
+                    and "children" in norm_src(w):
+                col.bad("R-THRESH", nb.qualname, nb.loc(w), "downwards to the nearest furcation or tip (the root is not an end by itself)",
+                        f"the downward walk stops at `{norm_src(c)}`: started from a root with a single child it stops at the root itself "
+                        f"and the stem branch is cut to one node", stmt="down", definite=True)
